@@ -32,7 +32,7 @@ class C16(Prop):
     quick_runs = 260
     thorough_runs = 4000
     chunk = 4
-    rule = ('one case = one generated world; its fault-free run has K primary solves; every solve index k is hit with a '
+    rule = ('one case = one generated world (30 %: a world from the generator of C01/C02/C04-C09; there at most 24 fault points); its fault-free run has K primary solves; every solve index k is hit with a '
             'time-limit fault (always fires; convergence_error=False, no backup) and with seeded samples (quick: 2 per k, '
             'thorough: the full product) of kind{timelimit,maxiter,singular,linesearch} x convergence_error{T,F} x '
             'backup{none,rescues,fails}; plus a trials-exceeded run when the world re-solves, plus two paused-and-continued runs (one paused off the report grid when the report step is a multiple of the hydraulic step) whose parts must each be well-formed. non-trivial = at least one '
@@ -40,9 +40,23 @@ class C16(Prop):
             'fault-free run')
     assumptions = ['fault-free non-convergence of a generated world is itself checked for well-formedness, not discarded',
                    'solver faults are injected at the seams wntr.sim.core._solver_helper / wntr.sim.solvers.time / '
-                   'wntr.sim.solvers.sp; SuperLU and the Newton iteration are real']
+                   'model.evaluate_jacobian (a zeroed row for a singular matrix); scipy, SuperLU and the Newton iteration are real']
 
     def make(self, rng, tier):
+        if rng.chance(0.3):
+            # a guest world: the generator of another property (leaks, isolation schedules, level/pressure controls, time rules, PDD sweeps,
+            # pumps into tanks ...) so that "every network and option set" is not only this profile's idea of a network
+            import importlib
+            guest = rng.pick(['c01', 'c02', 'c04', 'c05', 'c06', 'c07', 'c08', 'c09'])
+            scn = importlib.import_module('wsim.props.' + guest).PROP.make(rng, tier)
+            scn['faults'] = []
+            scn.pop('edits', None)
+            scn['guest_of'] = guest.upper()
+            scn['profile'] = 'c16'
+            scn['run']['convergence_error'] = False
+            scn['run']['backup'] = None
+            scn['fault_enum'] = {'mode': 'full' if tier == 'thorough' else 'sample', 'salt': rng.irange(0, 10 ** 9)}
+            return scn
         cfg = dict(steps=(3, 9), nj=(2, 6), p_pdd=0.2, n_tanks=[(0, 3), (1, 5), (2, 1)])
         scn = gen.gen_world(rng, cfg)
         scn['profile'] = 'c16'
@@ -69,7 +83,11 @@ class C16(Prop):
         fe = scn.get('fault_enum') or {'mode': 'sample', 'salt': 0}
         r = Rng(derive('c16enum', fe['salt']))
         out = []
-        for k in range(K):
+        ks = list(range(K))
+        if K > 24:
+            # long guest worlds: 24 fault points (first, last, and seeded ones in between) instead of all K
+            ks = sorted(set([0, 1, K - 1] + [r.irange(0, K - 1) for _ in range(21)]))
+        for k in ks:
             out.append({'kind': 'timelimit', 'k': k, 'ce': False, 'backup': 'none'})
             if fe['mode'] == 'full':
                 for kind in KINDS:
